@@ -16,6 +16,8 @@ PLAN = [
     ("dec_driver", "plain", ()),
     ("dec_driver", "plain", ("CDNS_VERIF_DEC_BUFFER=5",)),
     ("exp_driver", "plain", ()),
+    ("tbl_driver", "asan", ()),
+    ("ts_driver", "asan", ()),
 ]
 
 
